@@ -149,6 +149,10 @@ func (g *c17Gen) pos() *Positional {
 func genC17(t *rapid.T) *C17Case {
 	g := &c17Gen{t: t, short: map[string]bool{}}
 	d := &Decl{Root: Cmd{ID: "root", Name: "app"}}
+	if rapid.IntRange(0, 3).Draw(t, "customNsDelim") == 0 {
+		dl := rapid.SampledFrom([]string{"::", "-", "->>", "·"}).Draw(t, "nsDelim")
+		d.NsDelim = &dl
+	}
 	used := map[string]bool{}
 	d.Root.G.Groups = append(d.Root.G.Groups, g.group("Application Options", used, 0))
 	if rapid.Bool().Draw(t, "secondGroup") {
